@@ -213,6 +213,15 @@ package getty
 //@ ext callback:callback
 //@   ensures true
 
+// no open session (selectSession answers nil: the coordinator is unreachable) is a transport failure
+// like any other: the caller gets an error, not a nil-pointer panic
+//@ func (*GettyRemoting).SendSync
+//@   prop C14 C04
+//@   requires g != nil && g.futures != nil && sessionManager != nil && ghost.wp_calls == 0
+//@   modifies heap.all, ghost.all
+//@   ensures no-session-is-an-error: s == nil && called("selectSession#1") && callres("selectSession#1", 0) == nil ==> result1 != nil && result0 == nil
+//@   nopanic
+
 //@ func (*GettyRemoting).sendAsync
 //@   prop C14 C15
 //@   ensures written-once-on-an-open-session: session != nil && !ufb("session.closed", session) ==> ghost.wp_calls == 1
